@@ -189,6 +189,7 @@ func checkC01(p *Prog, r *Report) {
 	r.Rule("R15", "the command builders of the function-data object (read, reply, notify/write) are free of side effects: they assign no field of the object — a reply built once and kept is stale after the next data change")
 	c01PureBuilders(p, r, "R15")
 	hasBindingRule(p, r, "R16")
+	capturedStateMapRule(p, r, "R18")
 	r.Rule("R17", "a result is sent whenever it is asked for: in the sender's result builder the transmission does not depend on the request's ackRequest (that element decides about success results only, and the callers decide that) — otherwise a rejected message without ackRequest gets no error result")
 	c01ResultUnconditional(p, ib, r, "R17")
 	r.Rule("R12", "a read is answered on a server and on a special feature and rejected on a client feature: truth table of the role tests in front of the Reply of the generic read handler over role ∈ {client, server, special}")
